@@ -58,7 +58,8 @@ Proj == [ex |-> ex, en |-> en,
          ann |-> IF ex /\ en THEN Announced(qos) ELSE [none |-> 0],
          aux |-> nOps]
 
-Op(name, args, res, tag) == [op |-> name, a |-> args, expect |-> [res |-> res], tag |-> tag]
+\* operations that leave the entity with user data too large for one discovery parameter (> 65535 octets) carry their own tag
+Op(name, args, res, tag) == [op |-> name, a |-> args, expect |-> [res |-> res], tag |-> IF qos'.ud = 2 /\ ex' THEN tag \o ":huge-user-data" ELSE tag]
 Tick == nOps < MaxOps /\ nOps' = nOps + 1
 
 Create(q, e) ==
